@@ -370,10 +370,15 @@ class Graph:
 _built = set()
 
 
+COVERAGE = os.environ.get("VERIF_COVERAGE")     # developer aid (tools/coverage.sh): instrumented harness build in this directory
+
+
 def cargo_env():
     e = dict(os.environ)
     e["CARGO_NET_OFFLINE"] = "true"
     e.pop("RUSTFLAGS", None)
+    if COVERAGE:
+        e["RUSTFLAGS"] = "--cfg swimos_verif --check-cfg cfg(swimos_verif) -C instrument-coverage"
     return e
 
 
@@ -381,9 +386,11 @@ def _relocate_harness():
     """VERIF_REPO=<scratch copy of the repository> (used only to try the checks against mutants
     without touching /repo): work on a copy of the harness whose path dependencies point there."""
     global HARNESS
-    if REPO == "/repo" or getattr(_relocate_harness, "done", False):
+    if (REPO == "/repo" and not COVERAGE) or getattr(_relocate_harness, "done", False):
         return
     dst = os.path.join(os.path.dirname(os.path.abspath(REPO)), "harness_for_" + os.path.basename(os.path.abspath(REPO)))
+    if COVERAGE:
+        dst = os.path.join(COVERAGE, "harness")
     src = os.path.join(ROOT, "harness")
     for base, dirs, files in os.walk(src):
         dirs[:] = [d for d in dirs if d != "target"]
@@ -417,7 +424,7 @@ def build_harness(member, bin=None, timeout=3600):
         return
     ensure_lockfile()
     t0 = time.time()
-    cmd = ["cargo", "build", "--offline", "-p", member] + (["--bin", bin] if bin else [])
+    cmd = ["cargo"] + (["+nightly"] if COVERAGE else []) + ["build", "--offline", "-p", member] + (["--bin", bin] if bin else [])
     p = subprocess.run(cmd, cwd=HARNESS, env=cargo_env(),
                        stdout=subprocess.PIPE, stderr=subprocess.STDOUT, text=True, timeout=timeout)
     if p.returncode != 0:
@@ -435,6 +442,8 @@ def run_harness(member, args, stdin_path=None, stdout_path=None, timeout=3600, e
     build_harness(member, args[0])
     e = dict(os.environ)
     e.setdefault("RUST_BACKTRACE", "0")
+    if COVERAGE:
+        e["LLVM_PROFILE_FILE"] = os.path.join(COVERAGE, "prof", args[0] + "-%p-%8m.profraw")
     if env:
         e.update(env)
     fin = open(stdin_path) if stdin_path else subprocess.DEVNULL
